@@ -220,7 +220,8 @@ def snippet(rng, words, depth=0):
         return b"[System.Convert]::FromHexString('" + binascii.hexlify(p) + b"')"
     if k == 30:
         body = (p * (1 + 520 // max(1, len(p))))[:520]
-        return b"[Byte[]] $b = " + b",".join(b"%d" % c for c in body)
+        tail = rng.choice([b"", b"", b"; $o = $b | % { $_ -bxor $k }", b" -bxor $key"])
+        return b"[Byte[]] $b = " + b",".join(b"%d" % c for c in body) + tail
     if k == 31:
         return rng.choice([b"http://evil.example.com/a%2Fb/../c/./d.exe?x=%41", b"%APPDATA%\\Microsoft\\update.exe", b"C:\\Users\\%USERNAME%\\run.dll",
                            b"%TEMP%\\stage2.exe", b"%SystemRoot%\\System32\\cmd.exe", b"%PUBLIC%\\Documents\\a.exe", b"%HOME%\\x\\y.exe"])
@@ -720,7 +721,9 @@ def gen_c18(seed, shipped, tier="quick"):
     for _ in range(rng.randint(1, 8)):
         r = rng.random()
         inc, exc = gen_filter(rng)
-        if r < 0.22:
+        if r < 0.04:
+            ops.append(["plugin", rng.choice(["plain", "wrapped", "wrapped", "two"])])
+        elif r < 0.22:
             ops.append(["get_keywords", rng.random() < 0.85, rng.random() < 0.5])
         elif r < 0.5:
             ops.append(["get_analyzers", wrap_form(rng, inc), wrap_form(rng, exc)])
@@ -772,6 +775,8 @@ def gen_c20(seed, shipped, tier="quick", faults=None):
         knobs["line_buffering"] = rng.random() < 0.2
         run = {"mode": mode, "short": rng.random() < 0.3, "source": rng.choice(["file", "file", "stdin", "stdin", "fifo"]),
                "flag_last": rng.random() < 0.2, "seed": rng.randrange(1 << 30), "knobs": knobs}
+        if layout is None and rng.random() < 0.08:
+            run["kw_empty"] = True
         if mode == "json" and rng.random() < 0.6:
             run["corrupt"] = {"seed": rng.randrange(1 << 30)}
         ascii_names = layout is None or all(ord(ch) < 128 for f in layout["files"] for ch in f["path"])
